@@ -9,11 +9,17 @@
 //	     O,<name>                     Add with a per-target option (rejected)
 //	     R,<name>                     Remove(name)
 //	     U,<name>,<contract>          the live instance behind <name> starts serving another contract
+//	     X,<name>,<refl>,<contract>   Remove(name) and Add(name) (fresh instance) started concurrently while the
+//	                                  poller of <name> is in the middle of a resolution; a failed Add is repeated once
 //	     P                            nothing (probe only)
 //
 // Output: one token before the first op and one per op:  <op result>=<record>,<record>,…  with the
 // records in the order: every G path on the entries px (gRPC through GRPCProxy), gw (gRPC-Web over HTTP),
-// gs (gRPC-WebSocket); every H probe (transcoded HTTP); every W probe (transcoded WebSocket).
+// gs (gRPC-WebSocket), dg (router.RouteGRPC called directly: owner + digest of route.Service); every H probe on
+// ht (transcoded HTTP) and dh (router.RouteHTTP directly: owner, method, kind, body mapping); every W probe
+// (transcoded WebSocket).  Op results: A ok|err (ok! = not settled within the bound), R true~px:E;gw:E;gs:E;ht:E;ws:E
+// (calls in flight through every entry at Remove: E ended within 2 s, O still open, N not established) | true | false,
+// X <remove>/<add>/<add again or ->, U ok|ok!|absent, F/O err.
 // A record is  -<code>  (not served: gRPC status / HTTP status / c<close code>),
 // +<instance>|<method seen by the target>|<id>|<nested.name>|<sub>|<stamp header seen by the client>|<encoding>
 // or !<what> (protocol-level surprise).  See contract.go for the contract syntax.
@@ -108,12 +114,13 @@ func parseLine(input string) (*line, error) {
 func (l *line) probes() []probe {
 	var ps []probe
 	for k, p := range l.g {
-		for _, ep := range []string{"px", "gw", "gs"} {
+		for _, ep := range []string{"px", "gw", "gs", "dg"} {
 			ps = append(ps, probe{ep: ep, path: p, id: fmt.Sprintf("g%d", k), sub: fmt.Sprintf("s%d", k), n: fmt.Sprintf("n%d", k)})
 		}
 	}
 	for k, p := range l.h {
 		ps = append(ps, probe{ep: "ht", hm: p.hm, path: p.path, body: p.body, sub: fmt.Sprintf("h%d", k)})
+		ps = append(ps, probe{ep: "dh", hm: p.hm, path: p.path})
 	}
 	for k, p := range l.w {
 		ps = append(ps, probe{ep: "ws", hm: "GET", path: p.path, body: p.body, sub: fmt.Sprintf("w%d", k)})
@@ -132,38 +139,57 @@ func (Area) Exec(input string) string {
 	}
 	defer e.close()
 	ps := l.probes()
+	// a lookup of every path in the MIDDLE of every update fan-out (see hookLogger), for every history
+	mid := func() { e.lookupEverything(ps) }
+	e.hook.midUpdate.Store(&mid)
 	step := func(res string) string { return res + "=" + strings.Join(e.probeAll(ps), ",") }
 	out := []string{step("init")}
 	for i, op := range l.ops {
 		f := strings.Split(op, ",")
 		var res string
+		stop := func() {}
+		if f[0] != "P" {
+			stop = e.hammer(ps) // concurrent lookups while the operation and its settling are in progress
+		}
 		switch {
 		case f[0] == "A" && len(f) == 4:
 			c, err := parseContract(f[3])
 			if err != nil {
+				stop()
 				return "BADLINE"
 			}
 			res = guarded(func() string { return e.add(f[1], fmt.Sprintf("i%d", i), f[2], c) })
+		case f[0] == "X" && len(f) == 4:
+			c, err := parseContract(f[3])
+			if err != nil {
+				stop()
+				return "BADLINE"
+			}
+			res = guarded(func() string { return e.swap(f[1], fmt.Sprintf("i%d", i), f[2], c) })
 		case f[0] == "F" && len(f) == 2:
 			res = guarded(func() string { return e.addFailing(f[1], false) })
 		case f[0] == "O" && len(f) == 2:
 			res = guarded(func() string { return e.addFailing(f[1], true) })
 		case f[0] == "R" && len(f) == 2:
-			res = guarded(func() string { return e.remove(f[1]) })
+			res = guarded(func() string { return e.removeWithFlights(f[1]) })
 		case f[0] == "U" && len(f) == 3:
 			c, err := parseContract(f[2])
 			if err != nil {
+				stop()
 				return "BADLINE"
 			}
 			res = guarded(func() string { return e.update(f[1], c, i) })
 		case f[0] == "P" && len(f) == 1:
 			res = "-"
 		default:
+			stop()
 			return "BADLINE"
 		}
-		count("op:"+f[0]+":"+strings.SplitN(res, ":", 2)[0], 1)
+		stop()
+		count("op:"+f[0]+":"+strings.SplitN(strings.SplitN(res, "~", 2)[0], ":", 2)[0], 1)
 		out = append(out, step(res))
 	}
+	count("mid-update lookups", int(e.hook.fired.Load()))
 	count("probes", len(ps)*(len(l.ops)+1))
 	return strings.Join(out, " ")
 }
@@ -193,6 +219,17 @@ var catalogue = map[string][]service{
 			mth("Del", "u", bnd("DELETE", "/v1/lib/{id}", "-")),
 			mth("Watch", "bd", bnd("GET", "/v1/lib/{id}/watch", "-")),
 			mth("Raw", "ss")),
+		// lib2 = lib0 with the SAME services, methods, HTTP methods and templates but other DATA: body mappings swapped
+		// or dropped, streaming kinds changed (a router that keeps serving lib0's description after lib2 was delivered —
+		// or the other way round — answers differently on every entry point)
+		svc("stk.a.Lib",
+			mth("Get", "ss", bnd("GET", "/v1/lib/{id}", "-"), bnd("GET", "/v1/lib/{id}/x/{nested.name=shelves/*}:peek", "-")),
+			mth("Put", "u", bnd("POST", "/v1/lib", "sub"), bnd("PUT", "/v1/lib/{id}", "*")),
+			mth("Watch", "u", bnd("GET", "/v1/lib/{id}/watch", "-")),
+			mth("Feed", "u", bnd("GET", "/v1/lib:feed", "-"), bnd("POST", "/v1/lib:feed", "sub")),
+			mth("Chat", "ss", bnd("GET", "/v1/lib/chat/{nested.name=rooms/**}", "-")),
+			mth("Raw", "cs"),
+			mth("RawS", "u")),
 	},
 	"shop": {
 		svc("stk.b.Shop",
@@ -203,6 +240,11 @@ var catalogue = map[string][]service{
 			mth("Buy", "u", bnd("POST", "/v2/shop/{id}:buy", "*")),
 			mth("List", "u", bnd("GET", "/v1/shop", "-")),
 			mth("Steal", "u", bnd("GET", "/v1/lib/{id}", "-"))), // the template of Lib.Get under another service
+		// shop2 = shop0, same routes, other data
+		svc("stk.b.Shop",
+			mth("Buy", "u", bnd("POST", "/v1/shop/{id}:buy", "sub")),
+			mth("List", "u", bnd("GET", "/v1/shop", "-")),
+			mth("Sync", "cs", bnd("GET", "/v1/shop/sync", "-"))),
 	},
 	"misc": {
 		svc("stk.c.Misc",
@@ -213,10 +255,22 @@ var catalogue = map[string][]service{
 		svc("stk.c.Misc",
 			mth("Ping", "u", bnd("GET", "/v1/misc:ping", "-")),
 			mth("Tail", "ss", bnd("GET", "/v1/misc/{id}/tail/*", "-"), bnd("GET", "/v1/misc/{id}/all/**", "-"))),
+		// misc2 = misc0, same routes, other data
+		svc("stk.c.Misc",
+			mth("Ping", "bd"),
+			mth("Echo", "u", bnd("POST", "/v1/misc/{nested.name}/echo", "sub")),
+			mth("Link", "ss", bnd("LINK", "/v1/misc/{id}", "-")),
+			mth("Tail", "u", bnd("GET", "/v1/misc/{id}/tail/*", "-"))),
 	},
 }
 
-func sentinel(i int) service { return svc(fmt.Sprintf("stk.z.S%d", i), mth("Ping", "u")) }
+// sentinel: the per-instance service the settle wait and the in-flight calls use — never contested, with a server-streaming
+// and a bidi method reachable over GET (transcoded HTTP / WebSocket).
+func sentinel(i int) service {
+	return svc(fmt.Sprintf("stk.z.S%d", i), mth("Ping", "u"),
+		mth("Hold", "ss", bnd("GET", fmt.Sprintf("/z/s%d/hold", i), "-")),
+		mth("HoldB", "bd", bnd("GET", fmt.Sprintf("/z/s%d/holdb", i), "*")))
+}
 
 // pick names a variant: "lib0", "shop1", …
 func pick(names ...string) contract {
@@ -232,18 +286,51 @@ type histOp struct {
 	c                contract
 }
 
-func (o histOp) token(i int) string {
-	withSent := func() contract {
-		if o.refl == "none" {
-			return o.c
-		}
-		return append(append(contract{}, o.c...), sentinel(i))
+// withSentinels walks the history the way the router will and gives every contract the sentinel service of the INSTANCE
+// that serves it: a fresh instance per successful Add / swap (index of the op), the same one for its later contract changes
+// (so a change that keeps every route keeps the sentinel too).
+func withSentinels(ops []histOp) []contract {
+	out := make([]contract, len(ops))
+	type inst struct {
+		idx  int
+		refl bool
 	}
+	present := map[string]inst{}
+	for i, o := range ops {
+		plus := func(k int) contract { return append(append(contract{}, o.c...), sentinel(k)) }
+		switch o.kind {
+		case "A":
+			out[i] = o.c
+			if o.refl != "none" {
+				out[i] = plus(i)
+			}
+			if _, ok := present[o.name]; !ok {
+				present[o.name] = inst{i, o.refl != "none"}
+			}
+		case "X":
+			out[i] = o.c
+			if o.refl != "none" {
+				out[i] = plus(i)
+			}
+			present[o.name] = inst{i, o.refl != "none"}
+		case "U":
+			out[i] = o.c
+			if in, ok := present[o.name]; ok && in.refl {
+				out[i] = plus(in.idx)
+			}
+		case "R":
+			delete(present, o.name)
+		}
+	}
+	return out
+}
+
+func (o histOp) token(c contract) string {
 	switch o.kind {
-	case "A":
-		return fmt.Sprintf("A,%s,%s,%s", o.name, o.refl, withSent())
+	case "A", "X":
+		return fmt.Sprintf("%s,%s,%s,%s", o.kind, o.name, o.refl, c)
 	case "U":
-		return fmt.Sprintf("U,%s,%s", o.name, withSent())
+		return fmt.Sprintf("U,%s,%s", o.name, c)
 	case "P":
 		return "P"
 	}
@@ -277,13 +364,11 @@ func render(poll, opt bool, ops []histOp) string {
 		}
 	}
 	var toks []string
+	contracts := withSentinels(ops)
 	for i, o := range ops {
-		toks = append(toks, o.token(i))
-		c := o.c
-		if (o.kind == "A" || o.kind == "U") && o.refl != "none" {
-			c = append(append(contract{}, o.c...), sentinel(i))
-		}
-		if o.kind != "A" && o.kind != "U" {
+		c := contracts[i]
+		toks = append(toks, o.token(c))
+		if o.kind != "A" && o.kind != "U" && o.kind != "X" {
 			continue
 		}
 		for _, s := range c {
@@ -336,6 +421,9 @@ func b2i(b bool) int {
 func A(name, refl string, vs ...string) histOp {
 	return histOp{kind: "A", name: name, refl: refl, c: pick(vs...)}
 }
+func X(name, refl string, vs ...string) histOp {
+	return histOp{kind: "X", name: name, refl: refl, c: pick(vs...)}
+}
 func U(name string, vs ...string) histOp {
 	return histOp{kind: "U", name: name, refl: "v1", c: pick(vs...)}
 }
@@ -356,37 +444,65 @@ func fixed() []string {
 		render(false, true, []histOp{F("a"), O("a"), A("a", "none", "lib0"), A("a", "v1", "shop0"), R("a"), A("a", "va", "shop1", "misc1"), A("a", "v1", "lib0"), R("zz")}),
 		// polling on: a live contract change is picked up by the next poll on BOTH routers
 		render(true, true, []histOp{A("a", "v1", "lib0"), U("a", "lib1", "misc1"), R("a")}),
-		// polling on, contested service: the owner's changed contract releases it (nobody inherits), the other
-		// claimant gets it only with ITS next changed contract
+		// polling on: successive contract changes that keep EVERY service, method, HTTP method and template and change only
+		// the data behind them (body mappings, streaming kinds) — and back again
+		render(true, true, []histOp{A("a", "v1", "lib0", "shop0"), U("a", "lib2", "shop0"), U("a", "lib2", "shop2"), U("a", "lib0", "shop2"), R("a")}),
+		// the same next to a second target that claims one of the services; then a method added inside a kept service set
+		render(true, false, []histOp{A("a", "both", "misc0", "lib1"), A("b", "v1", "misc2"), U("a", "misc2", "lib1"), U("b", "misc0"), U("a", "misc2", "lib0"), R("a"), R("b")}),
+		// polling on, contested service: the owner's changed contract releases it, the waiting claimant takes over
 		render(true, false, []histOp{A("a", "v1", "lib0"), A("b", "both", "lib1", "shop0"), U("a", "misc0"), U("b", "lib0"), R("a"), R("b")}),
+		// Remove and Add of the SAME name started concurrently while its poller is in the middle of a resolution;
+		// whatever the outcome, the name is present or addable afterwards; then the usual life goes on
+		render(true, true, []histOp{A("a", "v1", "shop0"), X("a", "both", "shop1", "misc0"), R("a"), A("a", "v1", "lib0"), X("a", "v1", "lib2"), R("a")}),
 		// default options everywhere (NewForwarder(), default transcoder), v1alpha only
 		render(true, false, []histOp{A("x", "va", "misc0", "shop1"), A("y", "va", "lib1"), R("x"), P}),
 	}
 }
 
 var names = []string{"a", "b", "c"}
-var variants = []string{"lib0", "lib1", "shop0", "shop1", "misc0", "misc1"}
+var families = []string{"lib", "shop", "misc"}
 
 func randomContract(r *rand.Rand) []string {
 	var out []string
-	for _, s := range []string{"lib", "shop", "misc"} {
+	for _, s := range families {
 		if r.Intn(2) == 0 {
-			out = append(out, fmt.Sprintf("%s%d", s, r.Intn(2)))
+			out = append(out, fmt.Sprintf("%s%d", s, r.Intn(3)))
 		}
 	}
 	if len(out) == 0 {
-		out = append(out, variants[r.Intn(len(variants))])
+		out = append(out, fmt.Sprintf("%s%d", families[r.Intn(3)], r.Intn(3)))
 	}
 	return out
 }
 
+// sameRoutes changes a contract without touching a single route: variants 0 and 2 of a family have the same services,
+// methods, HTTP methods and templates (only bodies and streaming kinds differ).
+func sameRoutes(r *rand.Rand, vs []string) ([]string, bool) {
+	out := append([]string{}, vs...)
+	changed := false
+	for i, v := range out {
+		fam, k := v[:len(v)-1], v[len(v)-1]
+		if k == '1' || (changed && r.Intn(2) == 0) {
+			continue
+		}
+		out[i] = fam + map[byte]string{'0': "2", '2': "0"}[k]
+		changed = true
+	}
+	return out, changed
+}
+
+type liveInst struct {
+	refl string
+	vs   []string
+}
+
 func randomHistory(r *rand.Rand, maxOps int, allowPoll bool) string {
-	poll := allowPoll && r.Intn(4) == 0
+	poll := allowPoll && r.Intn(3) == 0
 	opt := r.Intn(2) == 0
 	n := 3 + r.Intn(maxOps-2)
-	present := map[string]string{} // live name -> reflection mode of the instance behind it
+	present := map[string]liveInst{} // live name -> the instance behind it
 	var ops []histOp
-	updates := 0
+	slow := 0 // operations that wait for a poll
 	for len(ops) < n {
 		name := names[r.Intn(len(names))]
 		var live []string
@@ -396,12 +512,13 @@ func randomHistory(r *rand.Rand, maxOps int, allowPoll bool) string {
 			}
 		}
 		sort.Strings(live)
-		switch k := r.Intn(10); {
+		switch k := r.Intn(12); {
 		case k < 4: // add (mostly absent names; sometimes a duplicate)
 			refl := []string{"v1", "v1", "va", "both", "both", "none"}[r.Intn(6)]
-			ops = append(ops, A(name, refl, randomContract(r)...))
+			vs := randomContract(r)
+			ops = append(ops, A(name, refl, vs...))
 			if _, ok := present[name]; !ok {
-				present[name] = refl
+				present[name] = liveInst{refl, vs}
 			}
 		case k < 7 && len(live) > 0: // remove a present name
 			name = live[r.Intn(len(live))]
@@ -413,14 +530,32 @@ func randomHistory(r *rand.Rand, maxOps int, allowPoll bool) string {
 			} else {
 				ops = append(ops, O(name))
 			}
-		case k == 8 && poll && len(live) > 0 && updates < 2:
-			// (an update of a target without reflection would never settle: not generated)
+		case (k == 8 || k == 9) && poll && len(live) > 0 && slow < 3:
+			// a polled contract change (an update of a target without reflection would never settle: not generated);
+			// half of them keep every route and change only the data
 			name = live[r.Intn(len(live))]
-			if present[name] != "none" {
-				ops = append(ops, U(name, randomContract(r)...))
-				updates++
+			in := present[name]
+			if in.refl == "none" {
+				continue
 			}
-		case k == 9 && len(live) == 0:
+			vs := randomContract(r)
+			if same, ok := sameRoutes(r, in.vs); ok && r.Intn(2) == 0 {
+				vs = same
+			}
+			ops = append(ops, U(name, vs...))
+			present[name] = liveInst{in.refl, vs}
+			slow++
+		case k == 10 && poll && len(live) > 0 && slow < 3:
+			name = live[r.Intn(len(live))]
+			if present[name].refl == "none" {
+				continue
+			}
+			refl := []string{"v1", "va", "both"}[r.Intn(3)]
+			vs := randomContract(r)
+			ops = append(ops, X(name, refl, vs...))
+			present[name] = liveInst{refl, vs}
+			slow++
+		case k == 11 && len(live) == 0:
 			ops = append(ops, R(name)) // remove of an absent name
 		}
 	}
